@@ -143,7 +143,7 @@ def run_C16(ctx, R):
     _per_config(ctx, R, tab.tab9)
     _scoped(ctx, R, lst.lst1, C16_ENTRIES, 6)
     _scoped(ctx, R, out.out5, C16_ENTRIES, 3)
-    _scoped(ctx, R, out.out6, C16_ENTRIES, 4)
+    _scoped(ctx, R, out.out6, C16_ENTRIES, 1)
 
 
 def _own_utils(names):
